@@ -479,6 +479,8 @@ class Evaluator:
                 return ("call", n, args, kwargs)
             if n in ("immutabledict", "dict") and len(args) == 1 and not kwargs:
                 return args[0]
+            if n == "cast" and len(args) == 2:
+                return args[1]      # typing.cast is the identity
             if n == "zip":
                 return ("zip", args)
             if n == "enumerate" and args:
